@@ -13,8 +13,14 @@
 //! filtered only by well-formedness (combinations in which a key would name a group that its master does
 //! not define are left out: no dangling group references).
 //!
-//! Most sub-spaces hand the compiler a designspace + UFOs (groups per master); two hand it a Glyphs 3
-//! file (groups global), judged by the same reference.
+//! Most sub-spaces hand the compiler a designspace + UFOs (groups per master); some hand it a Glyphs 3
+//! file (groups global), and the sub-spaces marked `twin` hand it BOTH forms of every case (all their
+//! group configurations being uniform); all judged by the same reference.
+//!
+//! Group NAMES are part of the alphabet in the `+named-group` sub-spaces (an extra group whose name is
+//! another group's name plus a suffix, next to groups the masters disagree about), and the
+//! `all-zero-*-master` sub-spaces hold every small kerning configuration in which one master of three
+//! defines kerning but only zeros.
 //!
 //! Environment knobs (debugging only): C09_COUNT=1 prints the sub-space sizes and exits;
 //! C09_ONLY=<sub-space name> runs a single sub-space; C09_CAP_S=<seconds> changes the time cap;
@@ -102,27 +108,57 @@ fn pattern_groups(p: u8) -> &'static [(&'static str, &'static [&'static str])] {
         2 => &[("G1", &["A", "B"]), ("G2", &["C"])],
         3 => &[("G1", &["A", "B", "C"])],
         4 => &[("G1", &["A"]), ("G2", &["B", "C"])],
+        5 => &[("G1", &["A"])],
         _ => panic!("unknown group pattern {p}"),
     }
 }
 
-/// The four names a kerning key may carry on one side: glyph A, glyph C, group G1, group G2.
-fn side_name(side: u8, idx: u8) -> String {
+/// A further group, the same in every master (members: glyph D, which no pattern touches), on one side.
+/// Its NAME is part of the alphabet: unrelated to the pattern groups' names, or a pattern group's name
+/// with a suffix (the shape of name a compiler that splits a group whose membership differs between
+/// masters is likely to make up for the parts).
+#[derive(Clone, Debug, PartialEq, Eq, PartialOrd, Ord, Serialize, Deserialize)]
+struct Extra {
+    /// 1 = `public.kern1.<name>`, 2 = `public.kern2.<name>`
+    side: u8,
+    name: String,
+}
+
+const EXTRA_MEMBER: &str = "D";
+/// the names of the extra group, relative to the pattern group G1
+const EXTRA_NAMES: [&str; 5] = ["H", "G1_1", "G1_2", "G1_0", "G11"];
+
+/// every (side, name) of the extra group
+fn extras_all() -> Vec<Option<Extra>> {
+    let mut v = vec![];
+    for side in [1u8, 2] {
+        for n in EXTRA_NAMES {
+            v.push(Some(Extra { side, name: n.to_string() }));
+        }
+    }
+    v
+}
+
+/// The names a kerning key may carry on one side: glyph A, glyph C, group G1, group G2 and (index 4, only
+/// in the sub-spaces that have one, only on its side) the extra group.
+fn side_name(side: u8, idx: u8, extra: Option<&Extra>) -> String {
     let pre = if side == 1 { K1 } else { K2 };
     match idx {
         0 => "A".into(),
         1 => "C".into(),
         2 => format!("{pre}G1"),
         3 => format!("{pre}G2"),
+        4 => format!("{pre}{}", extra.expect("generator bug: key names an extra group the case does not have").name),
         _ => panic!("unknown side name {idx}"),
     }
 }
 
-fn name_valid(idx: u8, pattern: u8) -> bool {
+fn name_valid(idx: u8, pattern: u8, side: u8, extra: Option<&Extra>) -> bool {
     match idx {
         0 | 1 => true,
         2 => pattern_groups(pattern).iter().any(|(n, _)| *n == "G1"),
         3 => pattern_groups(pattern).iter().any(|(n, _)| *n == "G2"),
+        4 => extra.is_some_and(|e| e.side == side),
         _ => false,
     }
 }
@@ -154,6 +190,9 @@ struct Case {
     /// per master: (side-1 pattern, side-2 pattern)
     groups: Vec<(u8, u8)>,
     entries: Vec<Entry>,
+    /// a further group {D}, identical in every master
+    #[serde(default)]
+    extra: Option<Extra>,
 }
 
 impl Case {
@@ -164,11 +203,20 @@ impl Case {
             .iter()
             .map(|e| {
                 let v: Vec<String> = e.values.iter().map(|v| v.map(num).unwrap_or("-".into())).collect();
-                format!("({},{})=[{}]", short(&side_name(1, e.first)), short(&side_name(2, e.second)), v.join(","))
+                format!(
+                    "({},{})=[{}]",
+                    short(&side_name(1, e.first, self.extra.as_ref())),
+                    short(&side_name(2, e.second, self.extra.as_ref())),
+                    v.join(",")
+                )
             })
             .collect();
         let src = if self.src == Src::Glyphs3 { "glyphs3 " } else { "" };
-        format!("{src}{} groups[{}] {}", self.ms.name(), g.join(" "), e.join(" "))
+        let x = match &self.extra {
+            Some(x) => format!(" extra[@{}{}={{{EXTRA_MEMBER}}}]", x.side, x.name),
+            None => String::new(),
+        };
+        format!("{src}{} groups[{}]{x} {}", self.ms.name(), g.join(" "), e.join(" "))
     }
 }
 
@@ -197,9 +245,15 @@ fn build_design(c: &Case) -> Design {
                 d.masters[m].groups.insert(format!("{pre}{gname}"), members.iter().map(|s| s.to_string()).collect());
             }
         }
+        if let Some(x) = &c.extra {
+            let pre = if x.side == 1 { K1 } else { K2 };
+            d.masters[m].groups.insert(format!("{pre}{}", x.name), vec![EXTRA_MEMBER.to_string()]);
+        }
         for e in &c.entries {
             if let Some(v) = e.values[m] {
-                d.masters[m].kerning.insert((side_name(1, e.first), side_name(2, e.second)), v);
+                d.masters[m]
+                    .kerning
+                    .insert((side_name(1, e.first, c.extra.as_ref()), side_name(2, e.second, c.extra.as_ref())), v);
             }
         }
     }
@@ -233,6 +287,19 @@ struct Sub {
     min_keys: usize,
     /// keep only group configurations in which some master uses this pattern on some side
     must_use: Option<u8>,
+    /// the alternatives for the extra group (`[None]` = the sub-space has none); every group
+    /// configuration is combined with every alternative
+    extras: Vec<Option<Extra>>,
+    /// keep only key sets in which some key names the extra group (the others are the cases of the
+    /// sub-space without an extra group, up to an unreferenced group)
+    need_extra_key: bool,
+    /// also hand the compiler the Glyphs 3 twin of every case whose groups are the same in every master
+    /// (groups are global in Glyphs, so only those are representable), judged by the same reference
+    twin: bool,
+}
+
+fn uniform_cfg(cfg: &[(u8, u8)]) -> bool {
+    cfg.iter().all(|c| *c == cfg[0])
 }
 
 /// value x presence options: every value on every non-empty subset of masters
@@ -241,6 +308,32 @@ fn opts_product(n: usize, values: &[f64]) -> Vec<Vec<Option<f64>>> {
     for mask in 1u32..(1 << n) {
         for v in values {
             out.push((0..n).map(|m| (mask >> m & 1 == 1).then_some(*v)).collect());
+        }
+    }
+    out
+}
+
+/// Per-key options of the all-zero-master sub-spaces (three masters): master `z` holds 0 for the key or
+/// does not have it, the first other master -50 or nothing, the second other master 30 or nothing; every
+/// combination except "no master has the key". Whatever keys are drawn, every pair master `z` defines
+/// is 0. `full` = all 7; otherwise the two options in which only one master (not `z`) has the key are left
+/// out (5 options).
+fn opts_zero_master(z: usize, full: bool) -> Vec<Vec<Option<f64>>> {
+    let others: Vec<usize> = (0..3).filter(|m| *m != z).collect();
+    let mut out = vec![];
+    for zv in [Some(0.0), None] {
+        for a in [Some(-50.0), None] {
+            for b in [Some(30.0), None] {
+                let present = zv.is_some() as u8 + a.is_some() as u8 + b.is_some() as u8;
+                if present == 0 || (!full && zv.is_none() && present == 1) {
+                    continue;
+                }
+                let mut v = vec![None; 3];
+                v[z] = zv;
+                v[others[0]] = a;
+                v[others[1]] = b;
+                out.push(v);
+            }
         }
     }
     out
@@ -313,17 +406,17 @@ fn group_configs_all(sub: &Sub) -> Vec<Vec<(u8, u8)>> {
 }
 
 /// All cases of one (sub-space, group configuration) block, smallest key sets first.
-fn block_cases(sub: &Sub, cfg: &[(u8, u8)], count_only: bool) -> (Vec<Case>, u64) {
+fn block_cases(sub: &Sub, cfg: &[(u8, u8)], extra: Option<&Extra>, count_only: bool) -> (Vec<Case>, u64) {
     // (key, option) combinations that are well formed under this configuration
     let mut per_key: Vec<((u8, u8), Vec<usize>)> = vec![];
-    for a in 0..4u8 {
-        for b in 0..4u8 {
+    for a in 0..5u8 {
+        for b in 0..5u8 {
             let ok: Vec<usize> = (0..sub.opts.len())
                 .filter(|oi| {
                     sub.opts[*oi]
                         .iter()
                         .enumerate()
-                        .all(|(m, v)| v.is_none() || (name_valid(a, cfg[m].0) && name_valid(b, cfg[m].1)))
+                        .all(|(m, v)| v.is_none() || (name_valid(a, cfg[m].0, 1, extra) && name_valid(b, cfg[m].1, 2, extra)))
                 })
                 .collect();
             if !ok.is_empty() {
@@ -344,11 +437,15 @@ fn block_cases(sub: &Sub, cfg: &[(u8, u8)], count_only: bool) -> (Vec<Case>, u64
         out: &mut Vec<Case>,
         count: &mut u64,
         count_only: bool,
+        extra: Option<&Extra>,
     ) {
         if left == 0 {
+            if sub.need_extra_key && !cur.iter().any(|e| e.first == 4 || e.second == 4) {
+                return;
+            }
             *count += 1;
             if !count_only {
-                out.push(Case { src: sub.src, ms: sub.ms, groups: cfg.to_vec(), entries: cur.clone() });
+                out.push(Case { src: sub.src, ms: sub.ms, groups: cfg.to_vec(), entries: cur.clone(), extra: extra.cloned() });
             }
             return;
         }
@@ -356,13 +453,19 @@ fn block_cases(sub: &Sub, cfg: &[(u8, u8)], count_only: bool) -> (Vec<Case>, u64
             let ((a, b), ok) = &per_key[ki];
             for oi in ok {
                 cur.push(Entry { first: *a, second: *b, values: sub.opts[*oi].clone() });
-                rec(sub, cfg, per_key, ki + 1, left - 1, cur, out, count, count_only);
+                rec(sub, cfg, per_key, ki + 1, left - 1, cur, out, count, count_only, extra);
                 cur.pop();
             }
         }
     }
     for k in sub.min_keys..=sub.max_keys {
-        rec(sub, cfg, &per_key, 0, k, &mut vec![], &mut out, &mut count, count_only);
+        rec(sub, cfg, &per_key, 0, k, &mut vec![], &mut out, &mut count, count_only, extra);
+    }
+    if sub.twin && sub.src == Src::Ufo && uniform_cfg(cfg) {
+        // the Glyphs 3 twins, after the UFO cases
+        let twins: Vec<Case> = out.iter().map(|c| Case { src: Src::Glyphs3, ..c.clone() }).collect();
+        out.extend(twins);
+        count *= 2;
     }
     (out, count)
 }
@@ -376,6 +479,9 @@ fn spaces(tier: Tier) -> Vec<Sub> {
             // the cascade under identical groups, two masters
             v.push(Sub {
                 src: Src::Ufo,
+                extras: vec![None],
+                need_extra_key: false,
+                twin: true,
                 min_keys: 1,
                 must_use: None,
                 name: "ends/uniform/2keys",
@@ -396,6 +502,9 @@ fn spaces(tier: Tier) -> Vec<Sub> {
             one.push(o(&[s(-50.0), s(30.0)]));
             v.push(Sub {
                 src: Src::Ufo,
+                extras: vec![None],
+                need_extra_key: false,
+                twin: false,
                 min_keys: 1,
                 must_use: None,
                 name: "ends/independent/1key",
@@ -408,6 +517,9 @@ fn spaces(tier: Tier) -> Vec<Sub> {
             // two keys while one side's groups differ between the masters
             v.push(Sub {
                 src: Src::Ufo,
+                extras: vec![None],
+                need_extra_key: false,
+                twin: false,
                 min_keys: 2,
                 must_use: None,
                 name: "ends/one-side-divergent/2keys",
@@ -422,6 +534,9 @@ fn spaces(tier: Tier) -> Vec<Sub> {
             mid.push(o(&[s(-50.0), s(-10.0), s(30.0)]));
             v.push(Sub {
                 src: Src::Ufo,
+                extras: vec![None],
+                need_extra_key: false,
+                twin: true,
                 min_keys: 1,
                 must_use: None,
                 name: "ends+mid/uniform/1key",
@@ -433,6 +548,9 @@ fn spaces(tier: Tier) -> Vec<Sub> {
             });
             v.push(Sub {
                 src: Src::Ufo,
+                extras: vec![None],
+                need_extra_key: false,
+                twin: true,
                 min_keys: 1,
                 must_use: None,
                 name: "ends+mid/uniform/2keys",
@@ -448,6 +566,9 @@ fn spaces(tier: Tier) -> Vec<Sub> {
             });
             v.push(Sub {
                 src: Src::Ufo,
+                extras: vec![None],
+                need_extra_key: false,
+                twin: false,
                 min_keys: 1,
                 must_use: None,
                 name: "ends+mid/one-master-deviates/1key",
@@ -462,20 +583,51 @@ fn spaces(tier: Tier) -> Vec<Sub> {
                     o(&[s(-50.0), s(-10.0), None]),
                 ],
             });
-            // the same through the Glyphs reader (groups are global there)
+            // group NAMES: a further group {D}, the same in both masters, whose name is unrelated to / derived
+            // from the name of a group the masters disagree about, on either side; some key names it
             v.push(Sub {
-                src: Src::Glyphs3,
+                src: Src::Ufo,
+                extras: extras_all(),
+                need_extra_key: true,
+                twin: false,
                 min_keys: 1,
                 must_use: None,
-                name: "glyphs3/ends/uniform/2keys",
+                name: "ends/one-side-divergent+named-group/2keys",
                 ms: MasterSet::Ends,
-                patterns: &[0, 2, 3],
-                mode: GroupMode::Uniform,
+                patterns: &[1, 3],
+                mode: GroupMode::OneSide,
                 max_keys: 2,
                 opts: vec![o(&[s(-50.0), s(-50.0)]), o(&[s(30.0), None]), o(&[None, s(12.5)])],
             });
+            // a master all of whose pairs are 0 (it defines kerning: its zeros are asserted) between / beside
+            // masters that kern the same or other pairs: the non-default master in the middle, and the
+            // default master in the middle with an end master all-zero (the other end: thorough tier)
+            for (name, ms, z) in [
+                ("ends+mid/uniform/all-zero-middle-master/2keys", MasterSet::EndsMid, 1usize),
+                ("min-def-max/uniform/all-zero-min-master/2keys", MasterSet::MinDefMax, 1),
+            ] {
+                v.push(Sub {
+                    src: Src::Ufo,
+                    extras: vec![None],
+                    need_extra_key: false,
+                    twin: true,
+                    min_keys: 1,
+                    must_use: None,
+                    name,
+                    ms,
+                    patterns: &[0, 2],
+                    mode: GroupMode::Uniform,
+                    max_keys: 2,
+                    opts: opts_zero_master(z, false),
+                });
+            }
+            // through the Glyphs reader (groups are global there): besides the twins of the uniform sub-spaces
+            // above, value options those do not have
             v.push(Sub {
                 src: Src::Glyphs3,
+                extras: vec![None],
+                need_extra_key: false,
+                twin: false,
                 min_keys: 1,
                 must_use: None,
                 name: "glyphs3/ends+mid/uniform/1key",
@@ -497,6 +649,9 @@ fn spaces(tier: Tier) -> Vec<Sub> {
             full2.push(o(&[s(-50.0), s(30.0)]));
             v.push(Sub {
                 src: Src::Ufo,
+                extras: vec![None],
+                need_extra_key: false,
+                twin: false,
                 min_keys: 1,
                 must_use: None,
                 name: "ends/uniform/2keys",
@@ -508,6 +663,9 @@ fn spaces(tier: Tier) -> Vec<Sub> {
             });
             v.push(Sub {
                 src: Src::Ufo,
+                extras: vec![None],
+                need_extra_key: false,
+                twin: false,
                 min_keys: 1,
                 must_use: Some(4),
                 name: "ends/uniform-with-pattern4/2keys",
@@ -525,6 +683,9 @@ fn spaces(tier: Tier) -> Vec<Sub> {
             });
             v.push(Sub {
                 src: Src::Ufo,
+                extras: vec![None],
+                need_extra_key: false,
+                twin: false,
                 min_keys: 3,
                 must_use: None,
                 name: "ends/uniform/3keys",
@@ -536,6 +697,9 @@ fn spaces(tier: Tier) -> Vec<Sub> {
             });
             v.push(Sub {
                 src: Src::Ufo,
+                extras: vec![None],
+                need_extra_key: false,
+                twin: false,
                 min_keys: 1,
                 must_use: None,
                 name: "ends/independent/1key",
@@ -547,6 +711,9 @@ fn spaces(tier: Tier) -> Vec<Sub> {
             });
             v.push(Sub {
                 src: Src::Ufo,
+                extras: vec![None],
+                need_extra_key: false,
+                twin: false,
                 min_keys: 2,
                 must_use: None,
                 name: "ends/independent/2keys",
@@ -563,6 +730,9 @@ fn spaces(tier: Tier) -> Vec<Sub> {
             });
             v.push(Sub {
                 src: Src::Ufo,
+                extras: vec![None],
+                need_extra_key: false,
+                twin: false,
                 min_keys: 2,
                 must_use: None,
                 name: "ends/one-side-divergent/3keys",
@@ -577,6 +747,9 @@ fn spaces(tier: Tier) -> Vec<Sub> {
             for ms in [MasterSet::EndsMid, MasterSet::MinDefMax] {
                 v.push(Sub {
                 src: Src::Ufo,
+                extras: vec![None],
+                need_extra_key: false,
+                twin: false,
                 min_keys: 1,
                 must_use: None,
                     name: if ms == MasterSet::EndsMid { "ends+mid/uniform/1key" } else { "min-def-max/uniform/1key" },
@@ -588,6 +761,9 @@ fn spaces(tier: Tier) -> Vec<Sub> {
                 });
                 v.push(Sub {
                 src: Src::Ufo,
+                extras: vec![None],
+                need_extra_key: false,
+                twin: false,
                 min_keys: 2,
                 must_use: None,
                     name: if ms == MasterSet::EndsMid { "ends+mid/uniform/2keys" } else { "min-def-max/uniform/2keys" },
@@ -606,6 +782,9 @@ fn spaces(tier: Tier) -> Vec<Sub> {
                 });
                 v.push(Sub {
                     src: Src::Ufo,
+                extras: vec![None],
+                need_extra_key: false,
+                twin: false,
                     min_keys: if ms == MasterSet::EndsMid { 2 } else { 1 },
                     must_use: None,
                     name: if ms == MasterSet::EndsMid {
@@ -626,6 +805,9 @@ fn spaces(tier: Tier) -> Vec<Sub> {
             }
             v.push(Sub {
                 src: Src::Ufo,
+                extras: vec![None],
+                need_extra_key: false,
+                twin: false,
                 min_keys: 1,
                 must_use: None,
                 name: "ends+mid/independent/1key",
@@ -642,6 +824,9 @@ fn spaces(tier: Tier) -> Vec<Sub> {
             });
             v.push(Sub {
                 src: Src::Glyphs3,
+                extras: vec![None],
+                need_extra_key: false,
+                twin: false,
                 min_keys: 1,
                 must_use: None,
                 name: "glyphs3/ends/uniform/2keys",
@@ -659,6 +844,9 @@ fn spaces(tier: Tier) -> Vec<Sub> {
             });
             v.push(Sub {
                 src: Src::Glyphs3,
+                extras: vec![None],
+                need_extra_key: false,
+                twin: false,
                 min_keys: 1,
                 must_use: None,
                 name: "glyphs3/ends+mid/uniform/2keys",
@@ -676,6 +864,9 @@ fn spaces(tier: Tier) -> Vec<Sub> {
             });
             v.push(Sub {
                 src: Src::Ufo,
+                extras: vec![None],
+                need_extra_key: false,
+                twin: false,
                 min_keys: 1,
                 must_use: None,
                 name: "two-axes/uniform/2keys",
@@ -690,6 +881,61 @@ fn spaces(tier: Tier) -> Vec<Sub> {
                     o(&[None, None, None, s(30.0)]),
                 ],
             });
+            // group NAMES (see the quick tier): every pair of different patterns on the divergent side
+            v.push(Sub {
+                src: Src::Ufo,
+                extras: extras_all(),
+                need_extra_key: true,
+                twin: false,
+                min_keys: 1,
+                must_use: None,
+                name: "ends/one-side-divergent+named-group/2keys",
+                ms: MasterSet::Ends,
+                patterns: &[0, 1, 2, 3],
+                mode: GroupMode::OneSide,
+                max_keys: 2,
+                opts: vec![o(&[s(-50.0), s(-50.0)]), o(&[s(30.0), None]), o(&[None, s(12.5)])],
+            });
+            // three masters, G1 = {A} / {A,B} / {A,B,C} in any arrangement on one side (a group that falls
+            // apart into up to three parts), the other side the same everywhere
+            v.push(Sub {
+                src: Src::Ufo,
+                extras: extras_all(),
+                need_extra_key: true,
+                twin: false,
+                min_keys: 1,
+                must_use: None,
+                name: "ends+mid/one-side-divergent+named-group/2keys",
+                ms: MasterSet::EndsMid,
+                patterns: &[5, 1, 3],
+                mode: GroupMode::OneSide,
+                max_keys: 2,
+                opts: vec![o(&[s(-50.0), s(-50.0), s(-50.0)]), o(&[None, s(30.0), None])],
+            });
+            // a master all of whose pairs are 0, every position of it in both three-master layouts
+            for (name, ms, z) in [
+                ("ends+mid/uniform/all-zero-default-master/2keys", MasterSet::EndsMid, 0usize),
+                ("ends+mid/uniform/all-zero-middle-master/2keys", MasterSet::EndsMid, 1),
+                ("ends+mid/uniform/all-zero-max-master/2keys", MasterSet::EndsMid, 2),
+                ("min-def-max/uniform/all-zero-default-master/2keys", MasterSet::MinDefMax, 0),
+                ("min-def-max/uniform/all-zero-min-master/2keys", MasterSet::MinDefMax, 1),
+                ("min-def-max/uniform/all-zero-max-master/2keys", MasterSet::MinDefMax, 2),
+            ] {
+                v.push(Sub {
+                    src: Src::Ufo,
+                    extras: vec![None],
+                    need_extra_key: false,
+                    twin: true,
+                    min_keys: 1,
+                    must_use: None,
+                    name,
+                    ms,
+                    patterns: &[0, 2, 3],
+                    mode: GroupMode::Uniform,
+                    max_keys: 2,
+                    opts: opts_zero_master(z, true),
+                });
+            }
         }
     }
     v
@@ -764,6 +1010,20 @@ struct Stats {
     cases_with_explicit_zero_exception: u64,
     cases_with_half_value_rounding: u64,
     cases_nontrivial: u64,
+    /// a NON-default master that has kerning entries, all of them 0, while another master has a non-zero one
+    cases_with_all_zero_non_default_master: u64,
+    cases_with_all_zero_default_master: u64,
+    /// ... and that master lies strictly between two masters (on the axis) that have a non-zero value
+    cases_with_all_zero_master_between_kerning_masters: u64,
+    /// a group named `<other group of the side>_<digits>`
+    cases_with_group_named_like_a_numbered_part_of_another: u64,
+    /// ... while the other group's membership differs between masters
+    cases_with_such_a_name_beside_a_divergent_group: u64,
+    cases_with_extra_group: u64,
+    glyphs_route_fonts_judged: u64,
+    glyphs_route_fonts_judged_nontrivial: u64,
+    glyphs_route_masters_asserted: u64,
+    ufo_route_fonts_judged: u64,
 }
 
 fn add_stats(a: &mut Stats, b: &Stats) {
@@ -803,7 +1063,17 @@ fn add_stats(a: &mut Stats, b: &Stats) {
         cases_with_pair_value_varying_between_masters,
         cases_with_explicit_zero_exception,
         cases_with_half_value_rounding,
-        cases_nontrivial
+        cases_nontrivial,
+        cases_with_all_zero_non_default_master,
+        cases_with_all_zero_default_master,
+        cases_with_all_zero_master_between_kerning_masters,
+        cases_with_group_named_like_a_numbered_part_of_another,
+        cases_with_such_a_name_beside_a_divergent_group,
+        cases_with_extra_group,
+        glyphs_route_fonts_judged,
+        glyphs_route_fonts_judged_nontrivial,
+        glyphs_route_masters_asserted,
+        ufo_route_fonts_judged
     );
 }
 
@@ -838,6 +1108,14 @@ struct Shape {
     div2: bool,
     missing: bool,
     nokern_master: bool,
+    /// masters whose kerning is non-empty and all 0 while another master has a non-zero value
+    zero_masters: Vec<usize>,
+    /// some group is named `<X>_<digits>` where X is another group of the same side
+    numbered_name: bool,
+    /// ... and X's membership differs between masters
+    numbered_name_of_divergent: bool,
+    /// the groups so named (full names)
+    numbered_of_divergent: Vec<String>,
 }
 
 fn is_group(n: &str) -> bool {
@@ -866,7 +1144,43 @@ fn design_shape(d: &Design) -> Shape {
         with.iter().any(|o| o.kerning.keys().any(|k| !m.kerning.contains_key(k)))
     });
     let nokern_master = d.masters.iter().any(|m| m.kerning.is_empty());
-    Shape { key_shapes: shapes.into_iter().collect::<Vec<_>>().join("+"), div1, div2, missing, nokern_master }
+    let any_nonzero = d.masters.iter().any(|m| m.kerning.values().any(|v| *v != 0.0));
+    let zero_masters: Vec<usize> = (0..d.masters.len())
+        .filter(|m| {
+            let k = &d.masters[*m].kerning;
+            any_nonzero && !k.is_empty() && k.values().all(|v| *v == 0.0)
+        })
+        .collect();
+    let mut numbered_name = false;
+    let mut numbered_name_of_divergent = false;
+    let mut numbered_of_divergent: Vec<String> = vec![];
+    let names: BTreeSet<&String> = d.masters.iter().flat_map(|m| m.groups.keys()).collect();
+    for y in &names {
+        for x in &names {
+            let Some(rest) = y.strip_prefix(x.as_str()).and_then(|r| r.strip_prefix('_')) else { continue };
+            if rest.is_empty() || !rest.bytes().all(|b| b.is_ascii_digit()) {
+                continue;
+            }
+            numbered_name = true;
+            if d.masters.iter().any(|m| m.groups.get(*x) != d.masters[0].groups.get(*x)) {
+                numbered_name_of_divergent = true;
+                if !numbered_of_divergent.contains(*y) {
+                    numbered_of_divergent.push((*y).clone());
+                }
+            }
+        }
+    }
+    Shape {
+        key_shapes: shapes.into_iter().collect::<Vec<_>>().join("+"),
+        div1,
+        div2,
+        missing,
+        nokern_master,
+        zero_masters,
+        numbered_name,
+        numbered_name_of_divergent,
+        numbered_of_divergent,
+    }
 }
 
 fn viol_key(class: &str, sh: &Shape) -> String {
@@ -882,7 +1196,15 @@ fn viol_key(class: &str, sh: &Shape) -> String {
         (false, true) => "kernless-master",
         (true, true) => "yes+kernless-master",
     };
-    format!("{class}:{}:divergent-groups={div}:pair-missing-in-master={missing}", sh.key_shapes)
+    // the two suffixes appear only when the design has the feature, so the keys of all other designs are
+    // what they were before these features joined the alphabet
+    let zero = if sh.zero_masters.is_empty() { "" } else { ":all-zero-kerning-master=yes" };
+    let numbered = if sh.numbered_name_of_divergent {
+        ":group-named-like-numbered-part-of-divergent-group=yes"
+    } else {
+        ""
+    };
+    format!("{class}:{}:divergent-groups={div}:pair-missing-in-master={missing}{zero}{numbered}", sh.key_shapes)
 }
 
 /// One compile on a thread of its own, so that std's per-thread hash keys (drawn from the shimmed
@@ -988,6 +1310,69 @@ fn exact_masters(
         .collect()
 }
 
+/// The design with every group named like a numbered part of a divergent group renamed to a name that
+/// is unrelated to every other group name (`H`, `H2`, ...); the kerning keys follow. Membership, values and
+/// therefore the reference are untouched.
+fn with_unrelated_names(d: &Design, sh: &Shape) -> Design {
+    let mut d2 = d.clone();
+    let all: BTreeSet<String> = d.masters.iter().flat_map(|m| m.groups.keys().cloned()).collect();
+    let mut n = 0;
+    for old in &sh.numbered_of_divergent {
+        let pre = if old.starts_with(K1) { K1 } else { K2 };
+        let new = loop {
+            n += 1;
+            let cand = if n == 1 { format!("{pre}H") } else { format!("{pre}H{n}") };
+            if !all.contains(&cand) {
+                break cand;
+            }
+        };
+        for m in d2.masters.iter_mut() {
+            if let Some(v) = m.groups.remove(old) {
+                m.groups.insert(new.clone(), v);
+            }
+            let keys: Vec<(String, String)> = m.kerning.keys().filter(|(a, b)| a == old || b == old).cloned().collect();
+            for k in keys {
+                let v = m.kerning.remove(&k).unwrap();
+                let k2 = (if &k.0 == old { new.clone() } else { k.0 }, if &k.1 == old { new.clone() } else { k.1 });
+                m.kerning.insert(k2, v);
+            }
+        }
+    }
+    d2
+}
+
+/// `evaluate` on a fresh thread, plus one narrowing step for the violation key: when the design fails and
+/// has a group named like a numbered part of a divergent group, the same design with that group given an
+/// unrelated name is judged too; if that one passes, the NAME is what the failure hinges on and the key
+/// says so (one key for the whole class instead of one per key-shape combination).
+fn evaluate_confirm(d: &Design, src: Src) -> EvalOut {
+    let mut out = evaluate(d, src, true);
+    let sh = design_shape(d);
+    let mismatch = out.viol.iter().any(|(k, _, _)| k.starts_with("kern-mismatch") || k.starts_with("kern-feature-missing"));
+    if mismatch && sh.numbered_name_of_divergent {
+        let d2 = with_unrelated_names(d, &sh);
+        let other = evaluate(&d2, src, true);
+        if other.viol.is_empty() && other.machinery.is_empty() {
+            let div = match (sh.div1, sh.div2) {
+                (true, false) => "side1",
+                (false, true) => "side2",
+                _ => "both",
+            };
+            for (k, w, _) in out.viol.iter_mut() {
+                if k.starts_with("kern-mismatch") || k.starts_with("kern-feature-missing") {
+                    let class = k.split(':').next().unwrap_or("kern-mismatch").to_string();
+                    *k = format!("{class}:only-when-a-group-is-named-like-a-numbered-part-of-a-divergent-group:divergent-groups={div}");
+                    w.push_str(&format!(
+                        "; the same design with {:?} renamed to an unrelated name passes",
+                        sh.numbered_of_divergent
+                    ));
+                }
+            }
+        }
+    }
+    out
+}
+
 const LEVEL_NAMES: [&str; 5] = ["glyph-glyph", "glyph-group", "group-glyph", "group-group", "none(0)"];
 
 /// `fresh`: compile on a thread of its own (deterministic hash keys, ~10x dearer — used to confirm a
@@ -1061,6 +1446,19 @@ fn evaluate(d: &Design, src: Src, fresh: bool) -> EvalOut {
     let norm: Vec<Vec<f64>> = (0..nm).map(|m| d.master_norm(m)).collect();
     let has_intermediate = norm.iter().any(|l| l.iter().any(|v| *v != 0.0 && v.abs() != 1.0));
     st.cases_with_intermediate_master = has_intermediate as u64;
+    st.cases_with_all_zero_non_default_master = sh.zero_masters.iter().any(|m| *m != d.default_master) as u64;
+    st.cases_with_all_zero_default_master = sh.zero_masters.contains(&d.default_master) as u64;
+    if d.axes.len() == 1 {
+        let pos = |m: usize| d.masters[m].loc[0];
+        let nz: Vec<usize> = (0..nm).filter(|m| d.masters[*m].kerning.values().any(|v| *v != 0.0)).collect();
+        st.cases_with_all_zero_master_between_kerning_masters = sh
+            .zero_masters
+            .iter()
+            .any(|z| nz.iter().any(|a| pos(*a) < pos(*z)) && nz.iter().any(|b| pos(*b) > pos(*z))) as u64;
+    }
+    st.cases_with_group_named_like_a_numbered_part_of_another = sh.numbered_name as u64;
+    st.cases_with_such_a_name_beside_a_divergent_group = sh.numbered_name_of_divergent as u64;
+    st.cases_with_extra_group = d.masters[0].groups.values().any(|g| g.iter().any(|x| x == EXTRA_MEMBER)) as u64;
     st.masters_not_asserted_no_kerning = (nm - with_kerning.len()) as u64;
 
     // ---- compile
@@ -1244,6 +1642,14 @@ fn evaluate(d: &Design, src: Src, fresh: bool) -> EvalOut {
     }
     let nontrivial = any_nonzero && !with_kerning.is_empty();
     st.cases_nontrivial = nontrivial as u64;
+    match src {
+        Src::Ufo => st.ufo_route_fonts_judged = 1,
+        Src::Glyphs3 => {
+            st.glyphs_route_fonts_judged = 1;
+            st.glyphs_route_fonts_judged_nontrivial = nontrivial as u64;
+            st.glyphs_route_masters_asserted = with_kerning.len() as u64;
+        }
+    }
     if !problems.is_empty() {
         out.viol.push((
             "layout-engine-problems".into(),
@@ -1274,8 +1680,22 @@ fn evaluate(d: &Design, src: Src, fresh: bool) -> EvalOut {
             num(f.expected_unrounded),
             mismatches.len()
         );
+        // every difference sits at a master whose own pairs are all 0: that is the class, whatever the key
+        // shapes are
+        let only_at_zero_masters =
+            !sh.zero_masters.is_empty() && mismatches.iter().all(|m| sh.zero_masters.contains(&m.master));
+        let key = if only_at_zero_masters {
+            let dflt = mismatches.iter().any(|m| m.master == d.default_master);
+            format!(
+                "{class}:only-at-a-master-whose-pairs-are-all-0:that-master-is-default={}:divergent-groups={}",
+                if dflt { "yes" } else { "no" },
+                if sh.div1 || sh.div2 { "yes" } else { "no" }
+            )
+        } else {
+            viol_key(class, &sh)
+        };
         out.viol.push((
-            viol_key(class, &sh),
+            key,
             what,
             json!({"first_mismatch": f, "mismatches": mismatches.iter().take(40).collect::<Vec<_>>()}),
         ));
@@ -1325,7 +1745,7 @@ fn replay(path: &std::path::Path) -> ! {
     for (mi, m) in d.masters.iter().enumerate() {
         println!("master {mi} at {:?}: groups {:?} kerning {:?}", m.loc, m.groups, m.kerning);
     }
-    let out = evaluate(&d, src, true);
+    let out = evaluate_confirm(&d, src);
     for m in &out.machinery {
         println!("machinery: {m}");
     }
@@ -1372,6 +1792,7 @@ fn bench() -> ! {
             ms: MasterSet::Ends,
             groups: vec![(2, 2), (2, 2)],
             entries: if with_kern { vec![Entry { first: 2, second: 2, values: vec![Some(-50.0), Some(30.0)] }] } else { vec![] },
+            extra: None,
         };
         let d = build_design(&c);
         let sc = vcore::Scratch::new("c09b");
@@ -1430,8 +1851,10 @@ fn main() {
     let subs = spaces(args.tier);
     let only = std::env::var("C09_ONLY").ok();
     // blocks = (sub-space, group configuration), in order of growing complexity
-    let mut blocks: Vec<(usize, Vec<(u8, u8)>)> = vec![];
+    let mut blocks: Vec<(usize, Vec<(u8, u8)>, Option<Extra>)> = vec![];
     let mut sub_counts: Vec<(String, usize, u64)> = vec![];
+    const CHUNK: usize = 300;
+    let mut items: Vec<(usize, usize, usize)> = vec![];
     for (si, sub) in subs.iter().enumerate() {
         if only.as_ref().is_some_and(|o| o != sub.name) {
             continue;
@@ -1439,17 +1862,29 @@ fn main() {
         let cfgs = group_configs(sub);
         let mut n = 0u64;
         for cfg in &cfgs {
-            n += block_cases(sub, cfg, true).1;
+            for x in &sub.extras {
+                n += block_cases(sub, cfg, x.as_ref(), true).1;
+            }
         }
-        sub_counts.push((sub.name.to_string(), cfgs.len(), n));
+        sub_counts.push((sub.name.to_string(), cfgs.len() * sub.extras.len(), n));
         for cfg in cfgs {
-            blocks.push((si, cfg));
+            for x in &sub.extras {
+                // work items: slices of a block, so that one big block does not keep a single thread busy
+                // for the whole run
+                let nb = block_cases(sub, &cfg, x.as_ref(), true).1 as usize;
+                let mut from = 0;
+                while from < nb {
+                    items.push((blocks.len(), from, (from + CHUNK).min(nb)));
+                    from += CHUNK;
+                }
+                blocks.push((si, cfg.clone(), x.clone()));
+            }
         }
     }
     let total: u64 = sub_counts.iter().map(|s| s.2).sum();
     if std::env::var("C09_COUNT").is_ok() {
         for (n, c, k) in &sub_counts {
-            println!("{n}: {c} group configurations, {k} cases");
+            println!("{n}: {c} group configurations (x extra-group alternatives), {k} cases (Glyphs twins included)");
         }
         println!("total {total}");
         std::process::exit(0);
@@ -1458,8 +1893,9 @@ fn main() {
     let cap_s: f64 = std::env::var("C09_CAP_S").ok().and_then(|s| s.parse().ok()).unwrap_or(args.tier.pick(300.0, 3000.0) * vcore::budget_scale());
     let t0 = std::time::Instant::now();
 
-    let results = vcore::par_for(blocks.len(), vcore::ncores(), |bi| {
-        let (si, cfg) = &blocks[bi];
+    let results = vcore::par_for(items.len(), vcore::ncores(), |ii| {
+        let (bi, from, to) = items[ii];
+        let (si, cfg, extra) = &blocks[bi];
         let sub = &subs[*si];
         let mut stt = Stats::default();
         let mut viol: Vec<(String, String, Value)> = vec![];
@@ -1468,8 +1904,8 @@ fn main() {
         let mut seen = BTreeSet::new();
         let mut skipped = 0u64;
         let mut hashes: Vec<(u64, bool)> = vec![];
-        let (cases, _) = block_cases(sub, cfg, false);
-        for (ci, case) in cases.iter().enumerate() {
+        let (cases, _) = block_cases(sub, cfg, extra.as_ref(), false);
+        for (ci, case) in cases.iter().enumerate().take(to).skip(from) {
             if t0.elapsed().as_secs_f64() > cap_s {
                 skipped += 1;
                 continue;
@@ -1481,7 +1917,7 @@ fn main() {
             add_stats(&mut stt, &ev.stats);
             if !ev.viol.is_empty() {
                 // confirm under hash keys that are a function of the seed alone (what a replay will see)
-                let again = evaluate(&d, case.src, true);
+                let again = evaluate_confirm(&d, case.src);
                 if again.viol.is_empty() && again.machinery.is_empty() {
                     for v in ev.viol.iter_mut() {
                         v.0 = format!("{}:only-under-some-hash-orders", v.0);
@@ -1522,7 +1958,8 @@ fn main() {
     let mut per_sub: BTreeMap<String, u64> = BTreeMap::new();
     let mut distinct: std::collections::HashSet<u64> = Default::default();
     let mut distinct_nontrivial: std::collections::HashSet<u64> = Default::default();
-    for (bi, (stt, viol, mach, s, sk, hashes)) in results.into_iter().enumerate() {
+    for (ii, (stt, viol, mach, s, sk, hashes)) in results.into_iter().enumerate() {
+        let bi = items[ii].0;
         for (h, nt) in hashes {
             distinct.insert(h);
             if nt {
@@ -1577,12 +2014,21 @@ fn main() {
         json!({
             "glyphs": "A B C D (U+0041..U+0044), advance 600, one rectangle each",
             "group_patterns_per_side": {
-                "0": "none", "1": "G1={A,B}", "2": "G1={A,B} G2={C}", "3": "G1={A,B,C}", "4": "G1={A} G2={B,C} (thorough only)"
+                "0": "none", "1": "G1={A,B}", "2": "G1={A,B} G2={C}", "3": "G1={A,B,C}", "4": "G1={A} G2={B,C} (thorough only)",
+                "5": "G1={A} (thorough only)"
             },
-            "key_names_per_side": ["A", "C", "G1", "G2"],
+            "extra_group": format!(
+                "in the sub-spaces that list extra-group alternatives: one further group {{{EXTRA_MEMBER}}}, identical in every master, on side 1 or on side 2, \
+                 named one of {EXTRA_NAMES:?} (unrelated / G1 with the suffixes _1 _2 _0 1); every group configuration x every (side, name); \
+                 only key sets in which some key names that group"
+            ),
+            "key_names_per_side": ["A", "C", "G1", "G2", "the extra group (on its side)"],
+            "glyphs_twins": "sub-spaces with glyphs_twin=true also compile the Glyphs 3 file of every case whose groups are the same in every master (all of them, these sub-spaces being uniform)",
             "sub_space_definitions": subs.iter().filter(|s| only.as_ref().is_none_or(|o| o == s.name)).map(|s| json!({
                 "name": s.name, "source_format": format!("{:?}", s.src), "masters": s.ms.name(), "patterns": s.patterns, "group_mode": format!("{:?}", s.mode),
                 "min_keys": s.min_keys, "max_keys": s.max_keys, "must_use_pattern": s.must_use,
+                "extra_group_alternatives": s.extras.iter().flatten().map(|x| format!("side{}:{}", x.side, x.name)).collect::<Vec<_>>(),
+                "glyphs_twin": s.twin,
                 "per_key_value_options": s.opts.iter().map(|o| o.iter().map(|v| v.map(num).unwrap_or("-".into())).collect::<Vec<_>>().join(",")).collect::<Vec<_>>()
             })).collect::<Vec<_>>(),
         }),
